@@ -136,6 +136,14 @@ Matches(ans, ev) ==
     [] ev.kind = "bag" -> SameBag(ans, ev.val)
     [] ev.kind = "oneof" -> Len(ans) = 1 /\ (IF ev.val = {} THEN ans[1] = -1 ELSE ans[1] \in ev.val)
 
+(* query kinds every mesh's alphabet must contain (all lookups, every      *)
+(* circulator kind, the geometric queries that use circulators)            *)
+RequiredOps ==
+  {"find_he", "find_hf", "find_hf_ext", "find_hf_he", "find_he_in_cell", "find_hf_in_cell",
+   "vv", "voh", "vih", "ve", "vhf", "vf", "vc", "hehf", "hef", "hec", "ehf", "ef", "ec", "hfhe", "hfe", "hfv",
+   "fv", "fhe", "fe", "cv", "cv_r", "che", "ce", "chf", "cf", "cc", "bhfhf", "bary_c", "bary_f", "normal",
+   "it_v", "it_e", "it_he", "it_f", "it_hf", "it_c", "bit_v", "bit_he", "bit_e", "bit_hf", "bit_f", "bit_c"}
+
 (* ------------------------------ the alphabet --------------------------- *)
 (* every const query with every in-contract argument over the live         *)
 (* entities of M (mtype: "poly" | "tet" | "hex")                           *)
@@ -172,7 +180,7 @@ Alphabet(M, mtype) ==
                         ELSE <<>>)
                   \o (IF mtype = "hex" /\ ~hasCell(h) THEN <<Q2("hex_adj_surf", h, hes[1])>> ELSE <<>>)
       perC(c) == LET hfs == At(S.cells, c)  v1 == HFVs(M, hfs[1])[1] IN
-                 Ops1(<<"cell", "cv", "che", "ce", "chf", "cf", "cc", "cc_r", "bnd_c", "val_c", "del_c", "bary_c", "p_cb", "n_verts_in_cell">>, c)
+                 Ops1(<<"cell", "cv", "cv_r", "che", "ce", "chf", "cf", "cc", "cc_r", "bnd_c", "val_c", "del_c", "bary_c", "p_cb", "n_verts_in_cell">>, c)
                  \o <<Q2("chf", c, 2), Q2("cv", c, 2)>>
                  \o (IF mtype = "tet" THEN <<Q1("tet_cv", c), Q2("tet_cv_v", c, v1), Q2("tet_opp_hf", c, v1), Q1("tet_tv", c), Q2("tet_tv", c, 2)>> ELSE <<>>)
                  \o (IF mtype = "hex" THEN <<Q1("hex_dirs", c), Q1("hex_hv", c)>> \o [d \in 1 .. 6 |-> Q2("hex_csc", c, d - 1)] ELSE <<>>)
